@@ -219,16 +219,57 @@ def main(argv=None) -> int:
   shards = mod.shards(a.tier, seed)
   if a.only:
     shards = [s for s in shards if a.only in s['name']]
+  # quick tier: bound every shard by paths (deterministic) from the committed calibration of a reference run
+  calibrated = 0
+  if a.tier == 'quick' and not os.environ.get('VERIF_NO_CALIBRATION'):
+    try:
+      cal = json.load(open(os.path.join(VERIF, 'calibration.json'))).get(prop, {})
+    except Exception:  # pylint: disable=broad-except
+      cal = {}
+    for s in shards:
+      c = cal.get(s['name'])
+      if not c:
+        continue
+      calibrated += 1
+      s['max_paths'] = int(c['paths'] * 1.5) + 50 if c['closed'] else int(c['paths'])
+      s['expect_s'] = max(1.0, float(c['cpu_s']))
+      s['budget_s'] = max(float(s.get('budget_s', 60)), 3.0 * float(c['cpu_s']) + 10)
+    if calibrated:
+      print(f'note: {calibrated}/{len(shards)} shards bounded by the path counts of calibration.json', flush=True)
   # size the tier by total wall time: shard budgets are scaled down if their sum exceeds the wall cap
   cap = float(os.environ.get('VERIF_WALL_S', '900' if a.tier == 'thorough' else '240'))
   # (a shard that declares expect_s - the CPU time it needs to close - is sized by that; its budget_s is only the point
   # where it is given up as INCOMPLETE, and it is not scaled unless the expected times themselves exceed the cap)
   total = sum(s.get('expect_s', s.get('budget_s', 60)) for s in shards)
   allowed = cap * max(1, min(a.jobs, len(shards) or 1)) * 0.85
+  extra_evidence = {}
+  if a.tier == 'thorough' and total > allowed * 4 and not a.only:
+    # The thorough families are larger than the wall cap at a useful depth: rather than shrinking every budget below
+    # a quarter of its nominal value, this run takes every quick-tier shard plus a seed-rotated sample of the rest
+    # (other seeds / a larger VERIF_WALL_S take the others); what was not selected is recorded in the evidence.
+    import random as _random
+    quick_names = {s['name'] for s in mod.shards('quick', seed)}
+    first = [s for s in shards if s['name'] in quick_names]
+    rest = [s for s in shards if s['name'] not in quick_names]
+    _random.Random(seed).shuffle(rest)
+    chosen, acc = list(first), sum(s.get('expect_s', s.get('budget_s', 60)) for s in first)
+    for s in rest:
+      c = s.get('expect_s', s.get('budget_s', 60))
+      if acc + c > allowed * 4:
+        continue
+      chosen.append(s)
+      acc += c
+    skipped = [s['name'] for s in shards if s not in chosen]
+    print(f'note: thorough: {len(chosen)} of {len(shards)} shards selected for seed {seed} within the {cap:.0f}s wall cap '
+          f'({len(skipped)} rotate in with other seeds or a larger VERIF_WALL_S)', flush=True)
+    extra_evidence['shards_not_selected_this_seed'] = dict(count=len(skipped), examples=skipped[:40])
+    shards = chosen
+    total = sum(s.get('expect_s', s.get('budget_s', 60)) for s in shards)
   if total > allowed:
     f = allowed / total
     for s in shards:
-      s['budget_s'] = max(5.0, s.get('budget_s', 60) * f)
+      if 'max_paths' not in s:
+        s['budget_s'] = max(5.0, s.get('budget_s', 60) * f)
     print(f'note: shard budgets scaled by {f:.2f} to fit the {cap:.0f}s wall cap of the {a.tier} tier', flush=True)
   known, fixed = load_findings(prop)
 
@@ -243,7 +284,8 @@ def main(argv=None) -> int:
   known_sigs = {k['sig'] for k in known}
 
   # 2. run all shards.
-  jobs = [dict(module=modname, shard=s) for s in shards]
+  # longest first (a long shard started last would set the wall time of the whole run)
+  jobs = [dict(module=modname, shard=s) for s in sorted(shards, key=lambda s: -float(s.get('expect_s', s.get('budget_s', 60))))]
   results: List[Dict[str, Any]] = []
   ctx = mp.get_context('fork')
   nproc = max(1, min(a.jobs, len(jobs)))
@@ -346,7 +388,7 @@ def main(argv=None) -> int:
   if not a.only:
     from engine import evidence
     evidence.write(prop, a.tier, seed, mod, results, known_seen, fixed, new_violations, errors,
-                   reach_total, time.time() - t0)
+                   reach_total, time.time() - t0, extra=extra_evidence or None)
   closed = sum(1 for r in results if r.get('closed'))
   print(f'{prop} {a.tier}: shards={len(results)} closed={closed} '
         f'paths={sum(r.get("paths", 0) for r in results)} known_seen={sorted(known_seen)} '
